@@ -16,16 +16,19 @@ package zklogstar
 //@   ensures result != nil && shaped(result)
 
 //@ func (*Proof).IsValid
+//@   use bits
 //@   nopanic[C05]
 //@   inline
-//@   requires public.C != nil && public.X != nil && public.G != nil && pkok(public.Prover) && pedok(public.Aux) && (p != nil ==> shaped(p))
+//@   requires public.C != nil && public.X != nil && public.G != nil && pkok(public.Prover) && pkvals(public.Prover) && pkbig(public.Prover) && pedok(public.Aux) && (p != nil ==> shaped(p))
 
 //@ func (*Proof).Verify
+//@   use bits
 //@   nopanic[C05]
 //@   modifies hstate(hash)
-//@   requires hash != nil && hash.h != nil && public.C != nil && public.X != nil && public.G != nil && pkok(public.Prover) && pedok(public.Aux) && (p != nil ==> shaped(p))
+//@   requires hash != nil && hash.h != nil && public.C != nil && public.X != nil && public.G != nil && pkok(public.Prover) && pkvals(public.Prover) && pkbig(public.Prover) && pedok(public.Aux) && (p != nil ==> shaped(p))
 
 //@ func challenge
+//@   use bits
 //@   nopanic[C05]
 //@   inline
-//@   requires hash != nil && hash.h != nil && group != nil && public.C != nil && public.X != nil && public.G != nil && pkok(public.Prover) && pedok(public.Aux) && commitment != nil
+//@   requires hash != nil && hash.h != nil && group != nil && public.C != nil && public.X != nil && public.G != nil && pkok(public.Prover) && pkvals(public.Prover) && pkbig(public.Prover) && pedok(public.Aux) && commitment != nil
